@@ -23,7 +23,7 @@
 using pbt::Ctx; using pbt::Bytes;
 
 static void prop(Ctx &c) {
-    gen::ZFileOpts o; o.max_chunks = 8; o.max_chunk = c.tier ? 40000 : 3000; o.allow_empty = c.rarely(10);
+    gen::ZFileOpts o; o.max_chunks = 8; o.max_chunk = c.tier ? 40000 : 3000; o.allow_empty = c.rarely(10); o.big_rate = 5; o.big_huge = c.tier != 0;
     if (c.rarely(3)) o.max_chunk = 70000;            // chunks larger than the scan's 32 KiB buffer
     gen::ZFile z = gen::zfile(c, o);
     ref::Header h = z.h; size_t n = h.entries.size();
@@ -54,6 +54,7 @@ static void prop(Ctx &c) {
     std::vector<int> ops; size_t no = 1 + c.draw(4); for (size_t i = 0; i < no; i++) ops.push_back((int)c.draw(2));
     bool validate_after = c.rarely(3);
     std::vector<size_t> rs = gen::rhistory(c);
+    if (z.D.size() > 30000) for (auto &x : rs) if (x < 512) x += 512;      // tiny reads of a large file are quadratic in the library
     c.desc << z.desc << " state{" << dmg.str() << "} ops=";
     for (int op : ops) c.desc << (op == 0 ? "validate_checksums " : op == 1 ? "find_valid_chunks " : "validate_data_checksum ");
     c.desc << "then read(" << gen::sizes_str(rs) << ")" << (validate_after ? " then validate again" : "");
